@@ -218,7 +218,18 @@ fn encode(it: &Item, no_key: bool) -> DDSData {
       b[off..off + 4].copy_from_slice(&0xffff_fff0u32.to_le_bytes());
       DDSData::new(sp(le, [0, 0], b))
     }
-    Kind::UnknownRep => DDSData::new(sp(RepresentationIdentifier { bytes: [0xab, 0xcd] }, [0, 0], good_bytes)),
+    // (bodies of every short length too: 0-3 bytes, less than one CDR word)
+    Kind::UnknownRep => DDSData::new(sp(
+      RepresentationIdentifier { bytes: [0xab, 0xcd] },
+      [0, 0],
+      match it.v % 7 {
+        0 => vec![],
+        1 => vec![0x11],
+        2 => vec![0x11, 0x22],
+        3 => vec![0x11, 0x22, 0x33],
+        _ => good_bytes,
+      },
+    )),
     Kind::Empty => DDSData::new(sp(le, [0, 0], vec![])),
     Kind::GoodDisposeKey => DDSData::new_disposed_by_key(ChangeKind::NotAliveDisposed, sp(le, [0, 0], it.id.to_le_bytes().to_vec())),
     // (empty key: stays undecodable also after DATA's padding to 4 bytes)
